@@ -37,6 +37,8 @@ func init() {
 			Old: "\t\tselect {\n\t\tcase <-doneCh:\n\t\t\tbreak process\n\t\tcase receiver.messageCh <- msg:\n\t\t}", New: "\t\t_ = doneCh\n\t\tselect {\n\t\tcase <-receiver.ctx.Done():\n\t\t\tbreak process\n\t\tcase receiver.messageCh <- msg:\n\t\t}"},
 		{Name: "relay re-broadcasts the current task when a collector subscribes (seed C17-r2b)", Kill: true, Rule: "C17-ROUTE", File: "fractal/superior.go",
 			Old: "\trs.baseSuperior.Subscribe(ctx, c)\n\tif task := rs.latestTask; task != nil {\n\t\trs.Send(ctx, c.ID(), task)\n", New: "\trs.baseSuperior.Subscribe(ctx, c)\n\tif task := rs.latestTask; task != nil {\n\t\trs.Broadcast(ctx, task)\n"},
+		{Name: "subscriber id taken into a local before the replay", Kill: false, File: "fractal/superior.go",
+			Old: "\trs.baseSuperior.Subscribe(ctx, c)\n\tif task := rs.latestTask; task != nil {\n\t\trs.Send(ctx, c.ID(), task)\n", New: "\trs.baseSuperior.Subscribe(ctx, c)\n\tif task := rs.latestTask; task != nil {\n\t\tid := c.ID()\n\t\trs.Send(ctx, id, task)\n"},
 	}
 }
 
